@@ -310,14 +310,18 @@ Definition impl_outcome (k : kind) (cond : N -> bool) (t : tree) : outcome :=
 (* ------------------------------------------------------------------ *)
 
 Inductive cmd :=
-| Post (t : tree)
+| Post (t : tree)                      (* POST whose body was read completely: it denotes t *)
 | Probe (k : kind) (cond : N -> bool)
-| Get.
+| Get
+| PostErr (t : tree)                   (* POST whose body read failed; the bytes received before
+                                          the failure denote t (possibly a complete valid config) *)
+| BadMethod.                           (* any method other than POST / GET *)
 
 Inductive obs :=
 | OStatus (accepted : bool)          (* POST: 200 / 400 *)
 | OOut (tr : list N) (er : list N)   (* probe traffic through the Modifier *)
-| OCfg (i : option nat).             (* GET: which POST's body is returned *)
+| OCfg (i : option nat)              (* GET: which POST's body is returned *)
+| ORefused (code : N).               (* 500 body read error / 405 method not allowed *)
 
 (* martianhttp.Modifier: reqmod, resmod (noop when nil), config *)
 Record active := mkActive { areq : cmod; ares : cmod; acfg : option nat }.
@@ -340,6 +344,11 @@ Definition impl_step (n : nat) (a : active) (c : cmd) : active * obs :=
   | Post t => let '(a', ok) := post n a t in (a', OStatus ok)
   | Probe k cond => let x := serve a k cond in (a, OOut (fst x) (snd x))
   | Get => (a, OCfg (acfg a))
+  (* servePOST: body, err := ioutil.ReadAll(req.Body); if err != nil { 500; return }
+     - whatever was read is dropped *)
+  | PostErr _ => (a, ORefused 500)
+  (* ServeHTTP default branch: Allow header, 405 *)
+  | BadMethod => (a, ORefused 405)
   end.
 
 Fixpoint impl_script (n : nat) (a : active) (cs : list cmd) : list obs :=
@@ -358,6 +367,8 @@ Definition spec_step (n : nat) (cur : option (nat * tree)) (c : cmd)
       let x := match cur with Some (_, t) => eval k cond t | None => eff0 end in
       (cur, OOut (fst x) (snd x))
   | Get => (cur, OCfg (match cur with Some (i, _) => Some i | None => None end))
+  | PostErr _ => (cur, ORefused 500)
+  | BadMethod => (cur, ORefused 405)
   end.
 
 Fixpoint spec_script (n : nat) (cur : option (nat * tree)) (cs : list cmd) : list obs :=
@@ -396,6 +407,7 @@ Definition obs_eqb (a b : obs) : bool :=
   | OStatus x, OStatus y => Bool.eqb x y
   | OOut t1 e1, OOut t2 e2 => list_eqb N.eqb t1 t2 && list_eqb N.eqb e1 e2
   | OCfg x, OCfg y => optnat_eqb x y
+  | ORefused x, ORefused y => N.eqb x y
   | _, _ => false
   end.
 
